@@ -679,6 +679,115 @@ def to_coq(sk):
     return '\n'.join(out) + '\n'
 
 
+# ---------------------------------------------------------------- driver modules: no concurrency of their own
+# The theorems treat a driver call as something that happens in the calling thread between DevBegin and
+# DevEnd.  That is only true if the driver modules (everything under src/nfc/clf/ except the frontend) never
+# run driver/transport code from a thread, timer, executor, signal handler, exit hook, event loop or
+# finaliser of their own.  scan_drivers() extracts the FACTS (imports, suspicious identifiers/constructs with
+# their location); the POLICY (which imports are acceptable, that there must be no flag) is
+# coq/Skel/DriverPolicy.v and is decided inside Coq (Bridge/C15Drivers.v) on the regenerated facts.
+DRIVER_DIR = 'src/nfc/clf'
+# identifiers (names or attribute names, anywhere in the code) that create or register asynchronous activity
+ASYNC_IDENTS = {
+    'Thread', 'Timer', 'start_new_thread', '_thread', 'thread', 'threading', 'ThreadPoolExecutor', 'ProcessPoolExecutor',
+    'Executor', 'Process', 'Pool', 'multiprocessing', 'concurrent', 'futures', 'asyncio', 'run_in_executor',
+    'call_later', 'call_at', 'call_soon', 'call_soon_threadsafe', 'create_task', 'ensure_future', 'get_event_loop',
+    'new_event_loop', 'run_until_complete', 'run_forever', 'signal', 'setitimer', 'alarm', 'set_wakeup_fd', 'atexit',
+    'sched', 'scheduler', 'settrace', 'setprofile', 'excepthook', 'weakref', 'finalize', 'gc',
+    # asynchronous APIs of the libraries the transports use (libusb1, pyserial, socketserver)
+    'getTransfer', 'setCallback', 'submit', 'handleEvents', 'handleEventsTimeout', 'USBTransferHelper', 'USBPoller',
+    'USBPollerThread', 'hotplugRegisterCallback', 'setPollFDNotifiers', 'ReaderThread', 'threaded', 'serve_forever',
+    'socketserver',
+}
+DYNAMIC_CODE = {'eval', 'exec', 'compile', '__import__', 'globals', 'vars'}
+
+
+def scan_driver_module(path, fname):
+    tree = ast.parse(open(path).read(), path)
+    imports, flags = [], []
+
+    def flag(node, what):
+        flags.append((fname, getattr(node, 'lineno', 0), what))
+
+    for node in ast.walk(tree):
+        if isinstance(node, ast.Import):
+            for a in node.names:
+                imports.append((fname, node.lineno, a.name))
+        elif isinstance(node, ast.ImportFrom):
+            base = ('nfc.clf' if node.level == 1 else 'nfc' if node.level == 2 else '?' * node.level) if node.level else ''
+            mod = '.'.join(x for x in (base, node.module or '') if x)
+            if node.module is None:
+                for a in node.names:             # from . import pn532
+                    imports.append((fname, node.lineno, mod + '.' + a.name))
+            else:
+                imports.append((fname, node.lineno, mod))
+        elif isinstance(node, ast.Name):
+            if node.id in ASYNC_IDENTS:
+                flag(node, 'identifier ' + node.id)
+        elif isinstance(node, ast.Attribute):
+            if node.attr in ASYNC_IDENTS:
+                flag(node, 'attribute ' + (dotted(node) or '?.' + node.attr))
+            if node.attr == 'modules' and dotted(node) == 'sys.modules':
+                flag(node, 'sys.modules')
+        elif isinstance(node, (ast.AsyncFunctionDef, ast.Await, ast.AsyncFor, ast.AsyncWith)):
+            flag(node, 'async construct ' + type(node).__name__)
+        elif isinstance(node, ast.Call):
+            f = node.func
+            if isinstance(f, ast.Name) and f.id in DYNAMIC_CODE:
+                flag(node, 'dynamic code ' + f.id + '(...)')
+            if dotted(f) in ('importlib.import_module', 'import_module'):
+                a = node.args[0] if node.args else None
+                ok = ((isinstance(a, ast.Constant) and isinstance(a.value, str) and a.value.startswith('nfc.clf.')) or
+                      (isinstance(a, ast.BinOp) and isinstance(a.op, ast.Add) and isinstance(a.left, ast.Constant)
+                       and a.left.value == 'nfc.clf.'))
+                if not ok:
+                    flag(node, 'import_module of something else than "nfc.clf." + name')
+        elif isinstance(node, ast.FunctionDef) and node.name == '__del__':
+            # a finaliser runs in whatever thread drops the last reference; accepted only if all it does is
+            # release the handle (self.close() / self.context.exit()), which nobody else can be using then
+            for c in ast.walk(node):
+                if isinstance(c, ast.Call) and dotted(c.func) not in ('self.close', 'self.context.exit'):
+                    flag(c, '__del__ calls ' + (dotted(c.func) or 'something'))
+    return imports, flags
+
+
+def scan_drivers(repo_root):
+    d = os.path.join(repo_root, DRIVER_DIR)
+    mods = sorted(f for f in os.listdir(d) if f.endswith('.py') and f != '__init__.py')
+    if not mods:
+        raise SkelError('no driver modules found under ' + DRIVER_DIR)
+    for sub in sorted(os.listdir(d)):
+        if os.path.isdir(os.path.join(d, sub)) and sub != '__pycache__':
+            raise SkelError('unexpected sub-package %s under %s' % (sub, DRIVER_DIR))
+    imports, flags = [], []
+    for f in mods:
+        i, fl = scan_driver_module(os.path.join(d, f), f)
+        imports += i
+        flags += fl
+    return {'modules': mods, 'imports': imports, 'flags': flags}
+
+
+def drivers_to_coq(sc):
+    out = ['(* GENERATED by translate/skel_c15.py (scan_drivers) from %s/*.py - do not edit.' % DRIVER_DIR,
+           '   Facts about the driver modules; the policy is Skel/DriverPolicy.v. *)',
+           'From Coq Require Import List String.', 'Import ListNotations.', 'Open Scope string_scope.', '',
+           'Definition driver_modules : list string :=\n  [ %s ].\n' % '; '.join(coq_str(m) for m in sc['modules']),
+           '(* (module, imported module) *)',
+           'Definition driver_imports : list (string * string) :=\n  [ %s ].\n' % ';\n    '.join(
+               '(%s, %s)' % (coq_str(f), coq_str(m)) for f, _l, m in sc['imports']),
+           '(* (module, line, what): identifiers and constructs that create asynchronous activity *)',
+           'Definition driver_flags : list (string * string * string) :=\n  [ %s ].\n' % ';\n    '.join(
+               '(%s, %s, %s)' % (coq_str(f), coq_str(str(l)), coq_str(w)) for f, l, w in sc['flags'])]
+    return '\n'.join(out) + '\n'
+
+
+def generate_drivers(repo_root):
+    return drivers_to_coq(scan_drivers(repo_root))
+
+
+generate_drivers.SOURCE = DRIVER_DIR + '/*.py'
+
+
 def generate(repo_root):
     return to_coq(extract(repo_root))
 
